@@ -106,6 +106,12 @@ def c14_workload(rng, tier):
                 a["mass"], a["rad"] = rng.choice([2, 13, 18]) if a["sym"] != "H" else 2, rng.choice([1, 2])   # both attributes on one atom
         lines, _ = (textgen.render_v2000 if rng.random() < 0.3 and textgen.fits_v2000(M) else textgen.render_v3000)(M, rng)
         texts.append("\n".join(lines))
+    # multi-attachment bonds whose real atom is listed before the endpoint atoms (bond order of the written file)
+    for k in (5, 6, 8):
+        hub = ["", "  SPEC", "", "  0  0  0     0  0            999 V3000", "M  V30 BEGIN CTAB", f"M  V30 COUNTS {k + 2} 1 0 0 0", "M  V30 BEGIN ATOM", "M  V30 1 Fe 0 0 0 0"]
+        hub += [f"M  V30 {i + 2} C {i} 1 0 0" for i in range(k)] + [f"M  V30 {k + 2} * 0 0 0 0", "M  V30 END ATOM", "M  V30 BEGIN BOND",
+                f"M  V30 1 9 1 {k + 2} ENDPTS=({k} " + " ".join(str(i + 2) for i in rng.sample(range(k), k)) + ") ATTACH=ALL", "M  V30 END BOND", "M  V30 END CTAB", "M  END"]
+        texts.append("\n".join(hub))
     # disconnected molecules (salts, hydrates): layouts of the writer
     texts.append("\n".join(textgen.render_v3000({"atoms": [dict(sym=s, chg=0, rad=0, mass=0, x="0", y="0", z="0") for s in ("Na", "Cl", "O", "H", "H")],
                                                  "bonds": [(2, 3, 1), (2, 4, 1)]}, rng, opts={"star": False})[0]))
@@ -136,6 +142,10 @@ def c14_workload(rng, tier):
                "C2H6O/(1-7)(2-7)(3-7)(4-8)(5-8)(6-9)(7-8)(8-9)", "He2//(1:mass=3)", "C6H6/(1-7)(2-8)(3-9)(4-10)(5-11)(6-12)(7-8)(7-9)(8-10)(9-11)(10-12)(11-12)",
                "CH4/(1-5)(2-5)(3-5)(4-6)", "CH4/(1-5", "HC4/", "C2/(1-1)", "H2//(1:mass=2,mass=2)", "Xy/", "ClNa/(1-2)", "/", "C60/" + "".join(f"({i}-{i + 1})" for i in range(1, 60)),
                "C2/(1-" + "9" * 4401 + ")", "C//(1:mass=" + "7" * 4401 + ")", "(", "C2/(1-2))"]
+    # more distinct valid strings than any small cache holds, cycled by the threads
+    for k in range(2, 200 if tier == "quick" else 400):
+        s = f"C{k}/" + "".join(f"({i}-{i + 1})" for i in range(1, min(k, 6)))
+        items.append({"key": f"parse|{s[:40]}|many", "op": "parse", "arg": s})
     for s in strings:
         for op in ("parse", "norm", "writeparsed"):
             items.append({"key": f"{op}|{s[:40]}|{hashlib.sha1(s.encode()).hexdigest()[:8]}", "op": op, "arg": s})
